@@ -1,6 +1,111 @@
 (* C01 / C07(server): the property-level lemmas, derived from the refinement in SrvProofs.v *)
-From DS Require Import Base.Prelude Model.SrvHandler Spec.SrvRelaySpec Proofs.SrvLists
-  Proofs.SrvProofs.
+From DS Require Import Base.Prelude Model.SrvHandler Spec.SrvRelaySpec Proofs.SrvLists Proofs.SrvProofs.
+
+Definition nonempty (s : list Z) : Prop := s <> [].
+
+Lemma concat_nil_nonempty (segs : list (list Z)) :
+  Forall nonempty segs -> concat segs = [] -> segs = [].
+Proof.
+  destruct segs as [|s segs]; [reflexivity|].
+  intros H Hc. inversion H as [|? ? Hs _]; subst. cbn in Hc.
+  apply app_eq_nil in Hc as [Hs' _]. contradiction.
+Qed.
+
+(* ---- body grammar --------------------------------------------------------- *)
+
+Lemma py_split_length c s : length (py_split c s) = S (count_occ Z.eq_dec s c).
+Proof.
+  induction s as [|x r IH]; cbn.
+  - reflexivity.
+  - destruct (x =? c) eqn:Ex.
+    + apply Z.eqb_eq in Ex. subst x. destruct (Z.eq_dec c c); [|congruence]. cbn. rewrite IH.
+      reflexivity.
+    + apply Z.eqb_neq in Ex. destruct (Z.eq_dec x c); [congruence|].
+      pose proof (py_split_nonempty c r).
+      destruct (py_split c r) as [|h t]; [congruence|]. cbn in *. lia.
+Qed.
+
+(* malformed = two or more ':' in the body *)
+Lemma parse_body_malformed body :
+  parse_body body = None <-> (2 <= count_occ Z.eq_dec body COLON)%nat.
+Proof.
+  unfold parse_body. pose proof (py_split_length COLON body) as Hl.
+  destruct (py_split COLON body) as [|a [|b [|c l]]]; cbn in Hl; split; intros H;
+    try discriminate; try lia; reflexivity.
+Qed.
+
+(* a well-formed body is  name  or  name ':' ps ; the parameters are the comma-separated
+   pieces of ps (none when ps is empty) *)
+Lemma parse_body_sound body name params :
+  parse_body body = Some (name, params) ->
+  ~ In COLON name /\
+  ((body = name /\ params = []) \/
+   (exists ps, body = name ++ COLON :: ps /\ ~ In COLON ps /\
+               (ps = [] -> params = []) /\
+               (ps <> [] -> join COMMA params = ps /\ forall p, In p params -> ~ In COMMA p))).
+Proof.
+  unfold parse_body. intros H.
+  pose proof (py_split_join COLON body) as Hj.
+  pose proof (py_split_parts COLON body) as Hp.
+  destruct (py_split COLON body) as [|a [|b [|c l]]]; try discriminate.
+  - injection H as <- <-. cbn in Hj. split.
+    + apply Hp. left. reflexivity.
+    + left. auto.
+  - injection H as <- <-. cbn in Hj. split.
+    + apply Hp. left. reflexivity.
+    + right. exists b. split; [symmetry; exact Hj|]. split.
+      * apply Hp. right. left. reflexivity.
+      * split.
+        -- intros ->. reflexivity.
+        -- intros Hb. destruct b as [|b0 b']; [congruence|]. split.
+           ++ apply py_split_join.
+           ++ intros p. apply py_split_parts.
+Qed.
+
+  (* [scan] finds exactly the declaratively defined occurrences *)
+  Lemma scan_from_complete rest : forall pre body,
+    In body (scan_from pre rest) <->
+    exists k, (0 < k <= length rest)%nat /\ command_ends (pre ++ firstn k rest) body.
+  Proof.
+    induction rest as [|b r IH]; intros pre body.
+    - cbn. split; [tauto|]. intros (k & Hk & _). lia.
+    - cbn [scan_from].
+      assert (Hstep : In body (scan_from (pre ++ [b]) r) <->
+                      exists k, (1 < k <= length (b :: r))%nat /\
+                                command_ends (pre ++ firstn k (b :: r)) body).
+      { rewrite IH. split.
+        - intros (k & Hk & Hc). exists (S k). cbn [length firstn]. split; [lia|].
+          rewrite <- app_assoc in Hc. exact Hc.
+        - intros (k & Hk & Hc). destruct k as [|k]; [lia|]. exists k. cbn [length] in Hk.
+          split; [lia|]. cbn [firstn] in Hc. rewrite <- app_assoc. exact Hc. }
+      assert (Hone : completes (pre ++ [b]) = Some body <->
+                     command_ends (pre ++ firstn 1 (b :: r)) body).
+      { cbn [firstn]. apply completes_iff. }
+      destruct (completes (pre ++ [b])) as [body'|] eqn:Ec.
+      + cbn [In]. rewrite Hstep. split.
+        * intros [<-|(k & Hk & Hc)].
+          -- exists 1%nat. cbn [length]. split; [lia|]. apply Hone. reflexivity.
+          -- exists k. split; [lia | exact Hc].
+        * intros (k & Hk & Hc). destruct (Nat.eq_dec k 1) as [->|Hk1].
+          -- left. apply Hone in Hc. congruence.
+          -- right. exists k. split; [lia | exact Hc].
+      + rewrite Hstep. split.
+        * intros (k & Hk & Hc). exists k. split; [lia | exact Hc].
+        * intros (k & Hk & Hc). destruct (Nat.eq_dec k 1) as [->|Hk1].
+          -- apply Hone in Hc. discriminate.
+          -- exists k. split; [lia | exact Hc].
+  Qed.
+
+  Lemma scan_complete bs body :
+    In body (scan bs) <->
+    exists k, (0 < k <= length bs)%nat /\ command_ends (firstn k bs) body.
+  Proof. apply (scan_from_complete bs [] body). Qed.
+
+(* the greeting of a TCP connection: system_greet() returned None or a latin-1 str *)
+Definition greeting_ok (greet : option (list Z)) : Prop :=
+  match greet with Some g => encode_latin1 g = Some g | None => True end.
+Definition greeting_actions (greet : option (list Z)) : list action :=
+  match greet with Some (c :: g) => [Send (c :: g)] | _ => [] end.
 
 Section Theorems.
   Variable E : Type.
@@ -9,13 +114,404 @@ Section Theorems.
   Variable sendok : nat -> bool.
 
   Notation handle_tcp := (handle_tcp fixed E sparse scall sendok).
+  Notation handle_segment := (handle_segment fixed E sparse scall sendok).
+  Notation handle_bytes := (handle_bytes fixed E sparse scall sendok).
   Notation listen_tcp := (listen_tcp fixed E sparse scall sendok).
   Notation listen_udp := (listen_udp fixed E sparse scall sendok).
+  Notation send_loop := (send_loop fixed E scall sendok).
+  Notation send_iter := (send_iter fixed E scall sendok).
+  Notation send_handle := (send_handle fixed E scall sendok).
+  Notation exec_custom := (exec_custom fixed E scall sendok).
   Notation relay_spec := (relay_spec E sparse scall).
   Notation relay_from := (relay_from E sparse scall).
   Notation command_block := (command_block E scall).
+  Notation block_at := (block_at E scall).
   Notation init := (init E).
 
-  Lemma cm_of_nil : cmsg (init_any := tt) = cmsg (init_any := tt).
+  Lemma cm_of_nil : cm_of [] = [].
   Proof. reflexivity. Qed.
+
+  Section SendsSucceed.
+    Hypothesis Hsend : forall k, sendok k = true.
+
+    (* relay = specification, for any partition into non-empty segments *)
+    Lemma tcp_relay e segs bs :
+      Forall nonempty segs -> concat segs = bs ->
+      let r := handle_tcp (init e) (map Some segs) in
+      actions_of r = fst (relay_spec bs e) /\ env (state_of r) = snd (relay_spec bs e) /\
+      flow_of r = Continue.
+    Proof.
+      intros Hne <-.
+      pose proof (handle_tcp_spec E sparse scall sendok Hsend segs [] (init e) Hne eq_refl) as H.
+      cbn zeta in *. unfold SrvRelaySpec.relay_spec. tauto.
+    Qed.
+
+    (* segmentation independence: any partition behaves as the single segment *)
+    Lemma tcp_segmentation e segs :
+      Forall nonempty segs ->
+      let r1 := handle_tcp (init e) (map Some segs) in
+      let r2 := handle_tcp (init e) [Some (concat segs)] in
+      actions_of r1 = actions_of r2 /\ env (state_of r1) = env (state_of r2) /\
+      cmsg (state_of r1) = cmsg (state_of r2).
+    Proof.
+      intros Hne. cbn zeta.
+      destruct (concat segs) as [|c s] eqn:Ec.
+      - rewrite (concat_nil_nonempty segs Hne Ec). cbn. auto.
+      - pose proof (handle_tcp_spec E sparse scall sendok Hsend segs [] (init e) Hne eq_refl) as H1.
+        assert (Hne2 : Forall nonempty [c :: s]) by (constructor; [discriminate | constructor]).
+        pose proof (handle_tcp_spec E sparse scall sendok Hsend [c :: s] [] (init e) Hne2 eq_refl)
+          as H2.
+        cbn zeta in *. rewrite Ec in H1. cbn [concat map] in H2. rewrite app_nil_r in H2.
+        cbn [map] in H2.
+        destruct H1 as (A1 & B1 & C1 & _). destruct H2 as (A2 & B2 & C2 & _).
+        rewrite A1, A2, B1, B2, C1, C2. auto.
+    Qed.
+
+    (* whole TCP connection: setup (greeting) then handle *)
+    Lemma listen_tcp_relay greet e segs bs :
+      greeting_ok greet -> Forall nonempty segs -> concat segs = bs ->
+      actions_of (listen_tcp greet e (map Some segs))
+        = greeting_actions greet ++ fst (relay_spec bs e).
+    Proof.
+      intros Hg Hne <-. unfold SrvHandler.listen_tcp, SrvHandler.setup_tcp.
+      assert (Hgen : forall h, cmsg h = [] -> env h = e ->
+                actions_of (handle_tcp h (map Some segs)) = fst (relay_spec (concat segs) e)).
+      { intros h Hc He.
+        pose proof (handle_tcp_spec E sparse scall sendok Hsend segs [] h Hne Hc) as H.
+        cbn zeta in H. rewrite He in H. unfold SrvRelaySpec.relay_spec. tauto. }
+      destruct greet as [[|c g]|]; cbn [greeting_actions].
+      - specialize (Hgen (init e) eq_refl eq_refl).
+        destruct (handle_tcp (init e) (map Some segs)) as [[a h] f].
+        unfold actions_of in *. cbn [fst snd app] in *. exact Hgen.
+      - cbn in Hg. rewrite Hg. cbn [nsend SrvHandler.init]. rewrite Hsend.
+        specialize (Hgen (bump E (init e)) eq_refl eq_refl).
+        destruct (handle_tcp (bump E (init e)) (map Some segs)) as [[a h] f].
+        unfold actions_of in *. cbn [fst snd app] in *. rewrite Hgen. reflexivity.
+      - specialize (Hgen (init e) eq_refl eq_refl).
+        destruct (handle_tcp (init e) (map Some segs)) as [[a h] f].
+        unfold actions_of in *. cbn [fst snd app] in *. exact Hgen.
+    Qed.
+
+    (* UDP: one datagram is the stream datagram ++ newline in one piece *)
+    Lemma udp_relay e msg :
+      let r := listen_udp e msg in
+      actions_of r = fst (relay_spec (msg ++ [NEWLINE]) e) /\
+      env (state_of r) = snd (relay_spec (msg ++ [NEWLINE]) e) /\ flow_of r = Continue.
+    Proof.
+      unfold SrvHandler.listen_udp, SrvHandler.handle_segment.
+      pose proof (handle_bytes_spec E sparse scall sendok Hsend (msg ++ [NEWLINE]) [] VNone (init e)
+                    I eq_refl) as H.
+      cbn zeta in *. unfold SrvRelaySpec.relay_spec. tauto.
+    Qed.
+  End SendsSucceed.
+
+  (* ---- projections of the specification ---------------------------------- *)
+
+  Lemma parses_app a b : parses (a ++ b) = parses a ++ parses b.
+  Proof. unfold parses. apply flat_map_app. Qed.
+  Lemma calls_app a b : calls (a ++ b) = calls a ++ calls b.
+  Proof. unfold calls. apply flat_map_app. Qed.
+
+  Lemma parses_reply o : parses (reply_of o) = [].
+  Proof.
+    destruct o as [[| b | [|c s] | |]| |]; try reflexivity.
+    cbn. destruct (encode_latin1 (c :: s)); reflexivity.
+  Qed.
+  Lemma calls_reply o : calls (reply_of o) = [].
+  Proof.
+    destruct o as [[| b | [|c s] | |]| |]; try reflexivity.
+    cbn. destruct (encode_latin1 (c :: s)); reflexivity.
+  Qed.
+
+  Lemma parses_result r : parses (result_actions r) = [].
+  Proof.
+    destruct r as [s| | |]; try reflexivity. cbn.
+    destruct (encode_latin1 s); [|reflexivity]. destruct (zlist_eqb s shutdown_ack); reflexivity.
+  Qed.
+  Lemma calls_result r : calls (result_actions r) = [].
+  Proof.
+    destruct r as [s| | |]; try reflexivity. cbn.
+    destruct (encode_latin1 s); [|reflexivity]. destruct (zlist_eqb s shutdown_ack); reflexivity.
+  Qed.
+
+  Definition call_of_body (body : list Z) : list (list Z * list (list Z)) :=
+    match parse_body body with Some np => [np] | None => [] end.
+
+  Lemma parses_block e body : parses (fst (command_block e body)) = [].
+  Proof.
+    unfold SrvRelaySpec.command_block. destruct (parse_body body) as [[n p]|]; [|reflexivity].
+    destruct (scall e n p) as [r e']. cbn [fst]. cbn. apply parses_result.
+  Qed.
+  Lemma calls_block e body : calls (fst (command_block e body)) = call_of_body body.
+  Proof.
+    unfold SrvRelaySpec.command_block, call_of_body.
+    destruct (parse_body body) as [[n p]|]; [|reflexivity].
+    destruct (scall e n p) as [r e']. cbn [fst]. cbn. rewrite calls_result. reflexivity.
+  Qed.
+
+  (* every byte reaches the parser exactly once, in order *)
+  Lemma spec_parses rest : forall pre e, parses (fst (relay_from pre rest e)) = rest.
+  Proof.
+    induction rest as [|b r IH]; intros pre e.
+    - reflexivity.
+    - rewrite relay_from_cons. cbn zeta. cbn [fst].
+      change (Parse b :: ?x) with ([Parse b] ++ x).
+      rewrite !parses_app, parses_reply, IH. unfold SrvProofs.block_at.
+      destruct (completes (pre ++ [b])); [rewrite parses_block|]; reflexivity.
+  Qed.
+
+  (* the outcomes of the successive parses when no custom command intervenes *)
+  Fixpoint outs_from (e : E) (bs : list Z) : list outcome :=
+    match bs with
+    | [] => []
+    | b :: r => let (o, e') := sparse e b in o :: outs_from e' r
+    end.
+
+  Lemma sends_app a b : sends (a ++ b) = sends a ++ sends b.
+  Proof. unfold sends. apply flat_map_app. Qed.
+
+  (* without custom commands in the stream, what is transmitted is exactly the replies of the
+     parser, once each, in order *)
+  Lemma spec_sends rest : forall pre e, scan_from pre rest = [] ->
+    sends (fst (relay_from pre rest e)) = flat_map (fun o => sends (reply_of o)) (outs_from e rest).
+  Proof.
+    induction rest as [|b r IH]; intros pre e Hs.
+    - reflexivity.
+    - rewrite relay_from_cons. cbn zeta. cbn [fst]. cbn [scan_from] in Hs.
+      cbn [outs_from]. unfold SrvProofs.block_at.
+      destruct (completes (pre ++ [b])) as [body|]; [discriminate|].
+      destruct (sparse e b) as [o e1]. cbn [fst snd flat_map].
+      change (Parse b :: ?x) with ([Parse b] ++ x).
+      rewrite !sends_app. cbn [app]. rewrite (IH _ _ Hs). reflexivity.
+  Qed.
+
+  (* the operations invoked are exactly the well-formed commands of the stream, in order, once *)
+  Lemma spec_calls rest : forall pre e,
+    calls (fst (relay_from pre rest e)) = flat_map call_of_body (scan_from pre rest).
+  Proof.
+    induction rest as [|b r IH]; intros pre e.
+    - reflexivity.
+    - rewrite relay_from_cons. cbn zeta. cbn [fst].
+      change (Parse b :: ?x) with ([Parse b] ++ x).
+      rewrite !calls_app, calls_reply, IH. unfold SrvProofs.block_at. cbn [scan_from].
+      destruct (completes (pre ++ [b])) as [body|].
+      + rewrite calls_block. cbn. reflexivity.
+      + reflexivity.
+  Qed.
+
+  (* the same two facts on the handler itself, for any segmentation *)
+  Lemma tcp_parses e segs :
+    (forall k, sendok k = true) -> Forall nonempty segs ->
+    parses (actions_of (handle_tcp (init e) (map Some segs))) = concat segs.
+  Proof.
+    intros Hsend Hne. destruct (tcp_relay Hsend e segs _ Hne eq_refl) as (-> & _).
+    apply spec_parses.
+  Qed.
+
+  Lemma tcp_sends e segs :
+    (forall k, sendok k = true) -> Forall nonempty segs -> scan (concat segs) = [] ->
+    sends (actions_of (handle_tcp (init e) (map Some segs)))
+      = flat_map (fun o => sends (reply_of o)) (outs_from e (concat segs)).
+  Proof.
+    intros Hsend Hne Hs. destruct (tcp_relay Hsend e segs _ Hne eq_refl) as (-> & _).
+    apply spec_sends. exact Hs.
+  Qed.
+
+  Lemma tcp_calls e segs :
+    (forall k, sendok k = true) -> Forall nonempty segs ->
+    calls (actions_of (handle_tcp (init e) (map Some segs)))
+      = flat_map call_of_body (scan (concat segs)).
+  Proof.
+    intros Hsend Hne. destruct (tcp_relay Hsend e segs _ Hne eq_refl) as (-> & _).
+    apply spec_calls.
+  Qed.
+
+  (* a byte the parser rejects, or answers with anything but a non-empty str, is silent *)
+  Lemma reply_silent o :
+    (forall c s, o <> ORet (VStr (c :: s))) -> reply_of o = [].
+  Proof.
+    intros H. destruct o as [[| b | [|c s] | |]| |]; try reflexivity.
+    exfalso. apply (H c s). reflexivity.
+  Qed.
+
+  (* a reply is transmitted byte for byte *)
+  Lemma reply_exact c s :
+    Forall (fun x => x < 256) (c :: s) -> reply_of (ORet (VStr (c :: s))) = [Send (c :: s)].
+  Proof.
+    intros H. unfold reply_of, encode_latin1.
+    replace (forallb (fun c0 => c0 <? 256) (c :: s)) with true; [reflexivity|].
+    symmetry. apply forallb_forall. intros x Hx. rewrite Forall_forall in H.
+    apply Z.ltb_lt. apply H. exact Hx.
+  Qed.
+
+  (* malformed and unknown commands *)
+  Lemma block_malformed e body : parse_body body = None -> command_block e body = ([], e).
+  Proof. unfold SrvRelaySpec.command_block. intros ->. reflexivity. Qed.
+
+  Lemma block_unknown e body name params :
+    parse_body body = Some (name, params) ->
+    (fst (scall e name params) = RAttrErr \/ fst (scall e name params) = RExc \/
+     fst (scall e name params) = RNonStr) ->
+    fst (command_block e body) = [Call name params].
+  Proof.
+    unfold SrvRelaySpec.command_block. intros -> H.
+    destruct (scall e name params) as [r e']. cbn [fst] in *.
+    destruct H as [->|[->| ->]]; reflexivity.
+  Qed.
+
+  (* ---- no exception leaves the handler (any socket behaviour, any recv events) ---- *)
+
+  Lemma tcp_alive e evs :
+    no_dies (actions_of (handle_tcp (init e) evs)) /\ flow_of (handle_tcp (init e) evs) = Continue.
+  Proof. apply handle_tcp_alive. Qed.
+
+  Lemma udp_alive e msg :
+    no_dies (actions_of (listen_udp e msg)) /\ flow_of (listen_udp e msg) = Continue.
+  Proof. unfold SrvHandler.listen_udp, SrvHandler.handle_segment. apply handle_bytes_alive. Qed.
+
+  (* ---- C07: $system_stop%%%%% ------------------------------------------- *)
+
+  Lemma stop_completes x : completes (x ++ stop_command) = Some stop_name.
+  Proof.
+    apply completes_iff. exists x. split; [reflexivity|]. split.
+    - cbn. unfold HEADER. lia.
+    - apply contains_tail_false_iff. reflexivity.
+  Qed.
+
+  (* what the device answers to system_stop() *)
+  Definition stop_answers (s : list Z) : Prop :=
+    forall e, fst (scall e stop_name []) = RStr s.
+
+  Definition stop_block (s : list Z) : list action :=
+    Call stop_name [] :: Send s :: (if zlist_eqb s shutdown_ack then [Stop] else []).
+
+  Lemma command_block_some e body n p : parse_body body = Some (n, p) ->
+    command_block e body = (Call n p :: result_actions (fst (scall e n p)), snd (scall e n p)).
+  Proof.
+    unfold SrvRelaySpec.command_block. intros ->. destruct (scall e n p). reflexivity.
+  Qed.
+
+  Lemma stop_block_eq e s : stop_answers s -> encode_latin1 s = Some s ->
+    fst (command_block e stop_name) = stop_block s.
+  Proof.
+    intros Hs He. rewrite (command_block_some e stop_name stop_name [] eq_refl). cbn [fst].
+    rewrite (Hs e). unfold result_actions. rewrite He. reflexivity.
+  Qed.
+
+  (* specification level: wherever the command is in the stream *)
+  Lemma spec_stop s x y e : stop_answers s -> encode_latin1 s = Some s ->
+    exists a1 a2, fst (relay_spec (x ++ stop_command ++ y) e) = a1 ++ stop_block s ++ a2.
+  Proof.
+    intros Hs He. unfold SrvRelaySpec.relay_spec.
+    set (ini := HEADER :: stop_name ++ [PCT; PCT; PCT; PCT]).
+    assert (Hsc : stop_command = ini ++ [PCT]) by reflexivity.
+    rewrite Hsc. rewrite <- !app_assoc. rewrite (app_assoc x ini).
+    rewrite relay_from_app. cbn zeta. cbn [fst app].
+    set (r1 := relay_from [] (x ++ ini) e).
+    cbn [app]. rewrite relay_from_cons. cbn zeta. cbn [fst].
+    unfold SrvProofs.block_at.
+    replace ((x ++ ini) ++ [PCT]) with (x ++ stop_command)
+      by (rewrite Hsc, app_assoc; reflexivity).
+    rewrite stop_completes. rewrite (stop_block_eq _ s Hs He).
+    exists (fst r1 ++ Parse PCT :: reply_of (fst (sparse (snd r1) PCT))). eexists.
+    rewrite <- app_assoc. cbn [app]. reflexivity.
+  Qed.
+
+  (* listening server, any segmentation *)
+  Lemma listen_stop s x y e segs :
+    (forall k, sendok k = true) -> stop_answers s -> encode_latin1 s = Some s ->
+    Forall nonempty segs -> concat segs = x ++ stop_command ++ y ->
+    exists a1 a2, actions_of (handle_tcp (init e) (map Some segs)) = a1 ++ stop_block s ++ a2.
+  Proof.
+    intros Hsend Hs He Hne Hc.
+    destruct (tcp_relay Hsend e segs _ Hne Hc) as (Ha & _). rewrite Ha.
+    apply spec_stop; assumption.
+  Qed.
+
+  Lemma udp_stop s x y e :
+    (forall k, sendok k = true) -> stop_answers s -> encode_latin1 s = Some s ->
+    exists a1 a2, actions_of (listen_udp e (x ++ stop_command ++ y)) = a1 ++ stop_block s ++ a2.
+  Proof.
+    intros Hsend Hs He.
+    destruct (udp_relay Hsend e (x ++ stop_command ++ y)) as (Ha & _). rewrite Ha.
+    rewrite <- !app_assoc. apply spec_stop; assumption.
+  Qed.
+
+  (* sending server: the command must be a whole chunk *)
+  Lemma exec_stop s h :
+    (forall k, sendok k = true) -> stop_answers s -> encode_latin1 s = Some s ->
+    exists h', exec_custom h stop_name = (stop_block s, h', Continue).
+  Proof.
+    intros Hsend Hs He.
+    destruct (exec_custom_spec E scall sendok Hsend h stop_name) as (h' & Hx & _).
+    rewrite (stop_block_eq _ s Hs He) in Hx. eauto.
+  Qed.
+
+  Definition live_chunk (r : recv_ev) : Prop := r <> RChunk [].
+
+  Lemma send_iter_continue h r q :
+    (forall k, sendok k = true) -> live_chunk r ->
+    snd (send_iter false h r q) = Continue.
+  Proof.
+    intros Hsend Hl. unfold SrvHandler.send_iter.
+    assert (Hq : forall h0, snd (send_queue E sendok false h0 q) = Continue).
+    { intros h0. unfold send_queue. destruct q; [reflexivity|]. rewrite Hsend. reflexivity. }
+    destruct r as [[|c l]|].
+    - exfalso. apply Hl. reflexivity.
+    - unfold send_chunk.
+      destruct (starts_with_header (c :: l) && ends_with custom_tail (c :: l)).
+      + pose proof (exec_custom_alive E scall sendok h (slice_1_m5 (c :: l))) as [_ Hf].
+        destruct (exec_custom h (slice_1_m5 (c :: l))) as [[a h1] f]. cbn [snd] in Hf. subst f.
+        specialize (Hq h1). destruct (send_queue E sendok false h1 q) as [[a2 h2] f2].
+        exact Hq.
+      + specialize (Hq h). destruct (send_queue E sendok false h q) as [[a2 h2] f2]. exact Hq.
+    - apply Hq.
+  Qed.
+
+  Lemma send_loop_stop s r1 : forall h r2 qs,
+    (forall k, sendok k = true) -> stop_answers s -> encode_latin1 s = Some s ->
+    Forall live_chunk r1 ->
+    exists a1 a2,
+      actions_of (send_loop false h (r1 ++ RChunk stop_command :: r2) qs) = a1 ++ stop_block s ++ a2.
+  Proof.
+    induction r1 as [|r r1 IH]; intros h r2 qs Hsend Hs He Hl.
+    - cbn [app SrvHandler.send_loop]. unfold SrvHandler.send_iter, send_chunk.
+      unfold stop_command. lazy beta iota. fold stop_command.
+      change (starts_with_header stop_command && ends_with custom_tail stop_command) with true.
+      change (slice_1_m5 stop_command) with stop_name. lazy beta iota.
+      destruct (exec_stop s h Hsend Hs He) as (h' & ->).
+      destruct (send_queue E sendok false h' (hd_queue qs)) as [[a2 h2] f2].
+      exists [].
+      destruct f2.
+      + destruct (send_loop false h2 r2 (tl qs)) as [[a3 h3] f3].
+        unfold actions_of. cbn [fst app]. eexists. rewrite <- app_assoc. reflexivity.
+      + unfold actions_of. cbn [fst app]. eexists. reflexivity.
+      + unfold actions_of. cbn [fst app]. eexists. reflexivity.
+    - inversion Hl as [|? ? Hr Hl']; subst.
+      cbn [app SrvHandler.send_loop].
+      pose proof (send_iter_continue h r (hd_queue qs) Hsend Hr) as Hf.
+      destruct (send_iter false h r (hd_queue qs)) as [[a h1] f]. cbn [snd] in Hf. subst f.
+      destruct (IH h1 r2 (tl qs) Hsend Hs He Hl') as (a1 & a2 & Ha).
+      destruct (send_loop false h1 (r1 ++ RChunk stop_command :: r2) (tl qs)) as [[a' h'] f'].
+      unfold actions_of in *. cbn [fst] in *. rewrite Ha.
+      exists (a ++ a1), a2. rewrite <- app_assoc. reflexivity.
+  Qed.
+
+  Lemma send_handle_stop s r1 r2 qs e :
+    (forall k, sendok k = true) -> stop_answers s -> encode_latin1 s = Some s ->
+    Forall live_chunk r1 ->
+    exists a1 a2,
+      actions_of (send_handle None e (r1 ++ RChunk stop_command :: r2) qs)
+        = a1 ++ stop_block s ++ a2.
+  Proof.
+    intros Hsend Hs He Hl. unfold SrvHandler.send_handle.
+    destruct (send_loop_stop s r1 (init e) r2 qs Hsend Hs He Hl) as (a1 & a2 & Ha).
+    destruct (send_loop false (init e) (r1 ++ RChunk stop_command :: r2) qs) as [[a h] f].
+    unfold actions_of in *. cbn [fst] in *. subst a.
+    destruct f; unfold actions_of; cbn [fst].
+    - exists (Subscribe :: a1), (a2 ++ [Unsubscribe]). cbn [app]. rewrite <- !app_assoc. reflexivity.
+    - exists (Subscribe :: a1), (a2 ++ [Unsubscribe]). cbn [app]. rewrite <- !app_assoc. reflexivity.
+    - exists (Subscribe :: a1), a2. reflexivity.
+  Qed.
+
 End Theorems.
